@@ -19,11 +19,13 @@ EXTENDS Integers, Sequences, TLC, Json
 CONSTANT Depth
 
 CtrClass == {"zero", "small", "below32", "above32", "above63", "max"}
-DigitClass == {1, 6, 8, 9, 10}
+DigitClass == {1, 6, 8, 9, 10, 0, 11}         \* incl. unsupported lengths: a refused call must leave nothing behind
 Calls ==
-    [op : {"GenerateHOTP", "ValidateHOTP"}, ctr : CtrClass, digits : DigitClass, alg : 0..2, nilp : BOOLEAN]
-    \cup [op : {"GenerateTOTP", "ValidateTOTP"}, ctr : {"small", "above32"}, digits : DigitClass, alg : 0..2, nilp : BOOLEAN]
-    \cup [op : {"GenerateOCRA", "ValidateOCRA"}, msg : {"short", "long", "registered"}, digits : {4, 6, 10}, alg : 0..2]
+    [op : {"GenerateHOTP", "ValidateHOTP"}, ctr : CtrClass, digits : DigitClass, alg : 0..3, nilp : BOOLEAN]
+    \cup [op : {"GenerateTOTP", "ValidateTOTP"}, ctr : {"small", "above32"}, digits : DigitClass, alg : 0..3, nilp : BOOLEAN]
+    \cup [op : {"GenerateOCRA", "ValidateOCRA"}, msg : {"short", "long", "registered", "inadmissible", "badsuite"}, digits : {4, 6, 10}, alg : 0..2]
+    \cup [op : {"ParseDecimalChallenge"}, text : {"short", "long", "negative", "garbage"}]
+    \cup [op : {"HexInputToOCRA"}, text : {"valid", "invalid"}]
     \cup [op : {"NewRawSuite"}, name : {"registered", "parsed", "malformed"}]
     \cup [op : {"DecodeSecret"}, spelling : {"canonical", "lower", "unpadded", "bad"}]
     \cup [op : {"RandomSecret"}, alg : 0..3]
